@@ -22,7 +22,7 @@ def cases(seed, tier):
     for k in range(n):
         r = random.Random(sch.np_seed(f"c05.{k}"))
         kinds = ("gauss", "bimodal", "expedge", "corr", "hole") if r.random() < 0.8 else ("gauss",)
-        c = wp.std_case(r, sch.np_seed(f"s{k}"), kinds=kinds, scenarios=("plain", "plain", "crash_resume", "crash_resume", "rerun", "like_raise"), blobs=(0,), evals=("scalar", "vector"))
+        c = wp.std_case(r, sch.np_seed(f"s{k}"), kinds=kinds, scenarios=("plain", "plain", "crash_resume", "crash_resume", "rerun", "like_raise", "rewind"), blobs=(0,), evals=("scalar", "vector"))
         if r.random() < 0.2:
             # extreme likelihood scale: |log L| up to ~2e6 (kept 1-D and small so that the ~100 annealing iterations stay cheap)
             from .. import targets as T
